@@ -22,6 +22,7 @@ RULE = (
     "import block of 2-7 statements over 9 forms x usage pattern per imported name (6 patterns) x action (5) x 3 boolean "
     "preferences x module placement (top level | inside a package); non-trivial = the action changed the text and the block had "
     ">= 3 statements of >= 2 forms; distinct by case hash"
+    "; 19 import forms incl. `import pkg`, multi-name relative from-imports and relative star imports with a top-level namesake module"
 )
 ASSUMPTIONS = [
     "the observable meaning of the module is what main.py prints: every used name's value, every __all__ name, every name other.py takes",
